@@ -97,6 +97,8 @@ type Node struct {
 	SilentControlQueries  int             // that many system.local / system.peers queries get no answer at all
 	DropNewConnsAtStartup int             // that many new connections are reset when their STARTUP arrives
 	StallSndBuf           int             // > 0 while the node is stalled hard (StallHard): it does not read from its sockets either
+	OddLocalRows          int             // that many system.local answers carry a null in a column the proxy needs (which: OddLocalKind)
+	OddLocalKind          int
 	Restarts              int
 	// RespCompress: 0 follow the request's connection setting for every frame, 1 never, 2 per-frame choice
 	RespCompress  int
@@ -908,6 +910,16 @@ func (n *Node) localRows(v primitive.ProtocolVersion) *message.RowsResult {
 		encVarchar("local", v), encInet(ip, v), encVarchar(n.DC, v), encVarchar("rack-backend", v),
 		encStrList([]string{"12345"}, v), encVarchar(BackendReleaseVersion, v), encVarchar(BackendPartitioner, v),
 		encVarchar(SentinelClusterName, v), encVarchar(BackendCQLVersion, v), encUUID(n.HostID, v), n.dseCol(v),
+	}
+	if n.OddLocalRows > 0 {
+		// a well-framed answer with unexpected content: a null where the proxy reads this node's
+		// address, data centre or host id (a node in a strange state, or a hostile one)
+		n.OddLocalRows--
+		n.w.Stat("fault.hostile-backend.system_local_with_null_column")
+		row[[]int{1, 2, 9, 1}[n.OddLocalKind%4]] = nil
+		if n.OddLocalKind%4 == 3 {
+			row[2] = nil
+		}
 	}
 	return &message.RowsResult{
 		Metadata: &message.RowsMetadata{ColumnCount: int32(len(localColumns)), Columns: localColumns},
